@@ -125,6 +125,19 @@ CHECKS["C20"] = dict(
          "class, multi-chunk stream, 1-2 cookies, restart of start_response, raising app); status, a header value, cookie value and body bytes are symbolic "
          "(<=2/<=3 chars); body sizes around the relay's 64 KiB block are enumerated. The ASGI relay's spool file is replaced by an in-memory buffer.")
 
+CHECKS["C12"] = dict(
+    technique="fork-on-branch symbolic execution of each untrusted-input entry point over short fully symbolic Latin-1 text / byte strings (exact symbolic UTF-8 decoding, URL-sensitive code points materialised for urllib); any exception other than 4xx HTTPException / ClientDisconnect / stream-consumed is a violation",
+    design_ref="DESIGN.md §4 C12",
+    note="Trusted: z3, CPython, forksym/ReShim. Inputs <=2/<=3 chars (<=3/<=4 body bytes). json.loads on decoded symbolic text is modelled as 'value or "
+         "JSONDecodeError'; request bodies are preset (assembly is C10). The Date accessor is not encoded; If-Modified-Since values of the conditional entry "
+         "are an enumerated recipe list (sampling, stated in the evidence). Range / router / static-file exceptions are reported by C03 / C08 / C07.")
+CHECKS["C18"] = dict(
+    technique="fork-on-branch symbolic execution of URL construction / replace / query helpers / repr with symbolic component text and ports: URL-sensitive code points are materialised by solver-decided forks, all others travel as placeholders through the unmodified urllib.parse",
+    design_ref="DESIGN.md §4 C18",
+    note="Trusted: z3, CPython incl. urllib.parse (runs unmodified), forksym. Component texts <=2/<=3 chars of printable ASCII (host chars from a small "
+         "alphabet), ports symbolic; schemes, presence of server/Host/root/query, 7 base-URL shapes and the replaced subsets are enumerated. One known "
+         "finding (decoded '?'/'#' in the path) is listed in known_findings.json.")
+
 NOT_YET = {}  # pid -> reason (filled while the framework is being built)
 NOT_APPLICABLE = {}
 
